@@ -25,7 +25,7 @@ ASSUMPTIONS = [
     "the node is free to: detect duplicates the DF1 way (same command and transaction number as the previous command -> the reply is repeated, nothing is "
     "executed; half of the scenarios), choose any session handle (a third of the scenarios: one whose bytes look like a protocol marker), refuse what does not "
     "fit the negotiated connection size; several addresses in one write() call are each applied and nothing else changes (a third of these calls name their first address twice: n results, the later value stays); "
-    "the caller's value list is unchanged after a write (also when longer than {count}) and a fifth of the {count} values are passed as tuples; a quarter of the {count} writes "
+    "forced PCCC statuses come with and without bytes after STS (EXT STS, padding, up to 20 bytes); the caller's value list is unchanged after a write (also when longer than {count}) and a fifth of the {count} values are passed as tuples; a quarter of the {count} writes "
     "carry up to 234 data bytes",
 ]
 ANCHORS = [
@@ -306,6 +306,7 @@ def run(ctx):
                 forced = None
                 if rng.random() < 0.03:
                     forced = dev.force_sts = rng.choice([0x10, 0x20, 0x30, 0x40, 0x50, 0x60, 0x70, 0x80, 0x90, 0xB0, 0xF0, rng.randrange(1, 256)])
+                    dev.force_sts_data = rng.choice([b"", b"", bytes([0x0B]), bytes([0x0B, 0x00]), bytes(rng.randrange(256) for _ in range(rng.choice([2, 4, 8, 20])))])
                 if forced is not None or not refslc.device_accepts(tab, a):
                     # the address is in the grammar but the controller does not hold it: it answers with an error status,
                     # the result must be a falsy Tag carrying a status text, and nothing may change
